@@ -393,6 +393,9 @@ func TestC08(t *testing.T) {
 		plan := randomPlan(rng) // drawn even when skipped: the stream of random numbers must not depend on VERIF_FROM
 		pump("random", capacity, plan)
 	}
+	if !pipe.VerifQueueAvailable {
+		nQueue = 0 // the unexported queue functions are not what the wrappers expect: pump layer only
+	}
 	for k := 0; k < nQueue; k++ {
 		i := idx
 		idx++
